@@ -19,6 +19,8 @@ for i in range(spec["n"]):
     chan.send(("item", i))
 if spec["end"] == "error":
     raise ValueError("boom")
+elif spec["end"] == "eof":
+    raise EOFError("the remote code ran into an EOF of its own")  # still the end of the remote execution
 elif spec["end"] == "kill":
     os.kill(os.getpid(), 9)
 elif spec["end"] == "close":
@@ -272,7 +274,7 @@ def stmt_pred(m, q, l):
 
 def cases(tier):
     cs = []
-    ends = ("body-end", "error", "close", "kill", "exit", "block")
+    ends = ("body-end", "error", "eof", "close", "kill", "exit", "block")
     for end in ends:
         for n in (2,) if tier == "quick" else (0, 1, 2, 3):
             for k in (0, 1):
